@@ -238,6 +238,9 @@ impl SubRule {
         let mut is_cont_match = contexts.is_empty();
         let mut is_expt_match = false;
 
+        // what an environment that did not match bound on the way belongs to that attempt only
+        let mut back_alphas = self.alphas.borrow().clone();
+        let mut back_varlbs = self.variables.borrow().clone();
         for (bef_cont_states, aft_cont_states) in contexts {
             let bef_cont_states = Self::mirrored(bef_cont_states);
             if (bef_cont_states.is_empty() || self.match_before_env(&bef_cont_states, &word_rev, &start_pos.reversed(word), false, true)?) 
@@ -245,7 +248,11 @@ impl SubRule {
                 is_cont_match = true;
                 break;
             }
+            *self.alphas.borrow_mut() = back_alphas.clone();
+            *self.variables.borrow_mut() = back_varlbs.clone();
         }
+        back_alphas = self.alphas.borrow().clone();
+        back_varlbs = self.variables.borrow().clone();
         for (bef_expt_states, aft_expt_states) in exceptions {
             let bef_expt_states = Self::mirrored(bef_expt_states);
             if (bef_expt_states.is_empty() || self.match_before_env(&bef_expt_states, &word_rev, &start_pos.reversed(word), false, false)?) 
@@ -253,6 +260,8 @@ impl SubRule {
                 is_expt_match = true;
                 break;
             }
+            *self.alphas.borrow_mut() = back_alphas.clone();
+            *self.variables.borrow_mut() = back_varlbs.clone();
         }
         Ok(!is_expt_match && is_cont_match)
     }
